@@ -1,9 +1,9 @@
 """C12 -- a damaged bytecode file is refused, not executed.
 Proof: NV/Props/Properties_C12.v (CRC burst theorem, refusal of bursts/bit flips/truncations/bad magic+version, all-or-nothing,
-and the two refutations with witnesses) over CRC parameters regenerated from nvm_format.c.
+section completeness of every loaded file, the extension theorem pair keyed by the generated flag) over CRC parameters regenerated from nvm_format.c.
 Correspondence: probes/nvm_probe.c (ASan+UBSan+leak check, real nvm_deserialize / nvm_crc32) vs the extracted model on the
 same files: compiler-produced and generated .nvm files, every single-bit flip, every truncation, bursts in both bit
-numberings, random tails, CRC-steered tails, bad magic/version/section count; plus `nano_vm damaged.nvm` end to end.
+numberings, random tails, CRC-steered tails, bad magic/version/section count, crafted valid-checksum files whose table sections are not whole entries; plus `nano_vm damaged.nvm` end to end.
 
 Scope note (reported in the evidence, not a violation of the property as stated): the checksum covers the bytes AFTER the
 32-byte header only.  Flips of header bits in flags / entry_point / section_count / string_pool_offset / string_pool_length
@@ -95,6 +95,35 @@ def crc_kernel_burst():
     return None
 
 
+def crafted_cases(rng, f, n):
+    """n files with a VALID checksum whose table sections are no longer whole entries: a directory size or a string length
+    field changed by a few bytes, checksum recomputed (zlib.crc32 = the repo's CRC-32 as long as C12_crc_vectors holds)."""
+    out = []
+    if len(f) < 44:
+        return out
+    nsec = struct.unpack('<I', f[16:20])[0]
+    if nsec == 0 or nsec > 16 or 32 + 12 * nsec > len(f):
+        return out
+    for _ in range(n):
+        g = bytearray(f)
+        i = rng.randrange(nsec)
+        ty, off, sz = struct.unpack('<III', f[32 + 12 * i:44 + 12 * i])
+        k = rng.random()
+        if k < 0.5:
+            d = rng.choice([-5, -3, -1, 1, 2, 7])
+            g[40 + 12 * i:44 + 12 * i] = struct.pack('<I', (sz + d) & 0xffffffff); what = 'secsize:%d:%+d' % (i, d)
+        elif k < 0.8 and ty == 2 and sz >= 4:
+            (l0,) = struct.unpack('<I', f[off:off + 4])
+            d = rng.choice([-1, 1, 3, 100, 0x7fffffff, 0xffffffff - l0])
+            g[off:off + 4] = struct.pack('<I', (l0 + d) & 0xffffffff); what = 'strlen0:%+d' % d
+        else:
+            d = rng.choice([1, 3, 4])
+            g = bytearray(f[:off + sz] + bytes(d) + f[off + sz:]); what = 'insert:%d:%d' % (i, d)   # shifts later sections: offsets now wrong
+        g[28:32] = struct.pack('<I', zlib.crc32(bytes(g[32:])) & 0xffffffff)
+        out.append((bytes(g), 'crafted:' + what))
+    return out
+
+
 def nano_vm_refuses(b, path, d):
     rc, o, e = nvmlib.run_tool([b.bin('nano_vm'), path], cwd=d, timeout=20)
     return (rc == 1 and 'invalid .nvm format' in e and o == ''), rc, o, e
@@ -140,6 +169,8 @@ def run(ck):
         nb = 200 if ck.thorough else 25
         for g, what in burst_cases(rng, f, nb, False) + burst_cases(rng, f, nb, True):
             batch.append(('load ' + nvmlib.hexs(g), 'burst', (name, f, g, what)))
+        for g, what in crafted_cases(rng, f, 60 if ck.thorough else 10):
+            batch.append(('load ' + nvmlib.hexs(g), 'crafted', (name, f, g, what)))
         for _ in range(20 if ck.thorough else 4):
             t = bytes(rng.getrandbits(8) for _ in range(rng.choice([1, 1, 2, 4, 4, 7, 16])))
             batch.append(('load ' + nvmlib.hexs(f + t), 'tail', (name, f, f + t, 'tail:' + t.hex())))
@@ -227,7 +258,15 @@ def run(ck):
                 capped(ck, kind + '-accepted', 'c12:%s-accepted:%s:%s' % (kind, name, what), 'damaged file (%s) is accepted' % what,
                         dict(engine='nvm_probe(asan)', input=l[:6000], file=name, fault=what))
         elif kind == 'corpus':
-            ck.count(('corpus', meta), True)      # model/impl agreement is checked above; known inputs are classified below
+            ck.count(('corpus', meta), True)      # every corpus file is a damaged or malformed file: it must be refused
+            if a != 'NULL':
+                ck.fail('c12:corpus-accepted:' + meta, 'corpus file %s (damaged/malformed) is accepted' % meta,
+                        dict(engine='nvm_probe(asan)', input=l[:6000], observed=a[:500]))
+        elif kind == 'crafted':
+            name, f, g, what = meta
+            dist['crafted_valid_crc'] = dist.get('crafted_valid_crc', 0) + 1
+            dist['crafted_accepted'] = dist.get('crafted_accepted', 0) + (a != 'NULL')
+            ck.count((nvmlib.fhash(g), what), True)   # agreement with the model is checked above (accept/refuse + fields)
         elif kind == 'crc':
             dist['crc_buffers'] += 1
             ck.count(l, len(l) > 6)
